@@ -107,13 +107,8 @@ def run(ck):
         from ..linear import entails
         from ..terms import length
         need = binop(">=", length(data), C(6))
-        st, m = entails(env.facts, need)
-        if st == "proved":
-            ck.proved("G-REFUSE", "SpacePacketHeader.unpack", "input shorter than 6 octets is refused",
-                      f"normal return implies {show(need)}")
-        else:
-            ck.refuted("G-REFUSE", "SpacePacketHeader.unpack", "input shorter than 6 octets is refused",
-                       f"returns normally without len(data) >= 6 being established ({m})")
+        st, m = D.prove(env.facts, need)
+        ck.verdict3("G-REFUSE", "SpacePacketHeader.unpack", "input shorter than 6 octets is refused", st, m, f"normal return implies {show(need)}")
         for r in short:
             if it.exc_matches(r["exc"], ("ValueError",)):
                 ck.proved("G-REFUSE", "SpacePacketHeader.unpack", f"refusal `{r['text'][:60]}` is a ValueError", r["exc"], nontrivial=False)
